@@ -16,6 +16,7 @@ struct C16 : Harness {
         bool ctr = kind_is_ctr(kind), mant = kind == CM || kind == PM;
         Op n = mkop(std::string("new.") + kname(kind));
         n.set("fill", prior == 0 ? 0 : prior == 1 ? 0xFF : prior == 2 ? fillbyte : 0);
+        n.set("amode", fillbyte % 3);      // placement of the blocks handed to the library: natural / 16 mod 32 / 32-aligned
         if (prior == 4) n.set("plant", 1).set("fill", fillbyte);
         p.push_back(n);
         auto keyop = [&](bool inv) {
@@ -66,14 +67,14 @@ struct C16 : Harness {
             auto bes = backends_for(kind);
             int be = *rc::gen::elementOf(bes);
             int prior = *irange(0, 4);
-            int failat = *rc::gen::weightedOneOf<int>({{8, rc::gen::just(1)}, {1, rc::gen::just(2)}});
+            int failat = *rc::gen::weightedOneOf<int>({{6, rc::gen::just(1)}, {3, rc::gen::just(2)}, {1, rc::gen::just(3)}});
             build(p, kind, be, failat, prior, *irange(1, 254), *gbytes(32), *gdata(64));
             return p;
         });
     }
 
     std::string run(const Program &p, Stats &st) override {
-        MonHooks mh; mh.reset();
+        MonHooks mh; mh.reset((int)p[0].geti("amode", 0));
         memset(canary, 0xAB, sizeof canary);
         ExecOptions eo; eo.hooks = &mh; eo.final_cleanup = false;
         Exec ex(api, eo);
@@ -124,6 +125,7 @@ struct C16 : Harness {
             std::string site = p[0].name.substr(4) + "/be" + std::to_string(be);
             int prior = p[0].geti("plant") ? 4 : -1;
             st.count("site/" + site);
+            st.count("block-placement-mode=" + std::to_string(p[0].geti("amode", 0)));
             if (prior == 4) st.count("prior/planted-pointers");
             else if (p.size() > 2 && p[1].name.find(".init") != std::string::npos && !p[1].geti("failat")) st.count("prior/stale-image-of-cleaned-object");
             else st.count("prior/fill=" + std::string(p[0].geti("fill") == 0 ? "00" : p[0].geti("fill") == 255 ? "ff" : "garbage"));
